@@ -349,6 +349,8 @@ class SqliteSem:
             return S.int_to_str(c)
         if c.ty == BOOL:
             return S.int_to_str(K.as_ty(c, INT))
+        if c.ty == REAL:
+            return S.real_to_str(c)
         raise Unsupported("real -> text")
 
     def arith(self, op, a: Cell, b: Cell) -> Cell:
